@@ -12,7 +12,8 @@ RULE = (
     "recurrence: on every date of grammar-generated market-value backtests the recorded root index starts at 100 and equals price[t-1]*value[t]/(value[t-1]+flows[t]) "
     "(flows = initial capital on the synthetic row + CapitalFlow). history: after every operation of generated histories (several flows / fees / non-flow adjustments per date) the "
     "index read equals last_price*value/(last_value+net flows so far) with the reference model's accumulators, and a flow on a date without P&L leaves it bit-unchanged. "
-    "scale: the same scale-free spec (fractional positions, proportional or no commission, any spread) run at capital C and lambda*C gives the same index (1e-9). "
+    "schedule: a known schedule of flows (CapitalFlow, or a user algo adjusting with update=False and relying on the backtest's closing update) is recorded date for date "
+    "in the flows series and the recurrence holds. scale: the same scale-free spec (fractional positions, proportional or no commission, any spread) run at capital C and lambda*C gives the same index (1e-9). "
     "flows: zero-cost fractional daily-rebalanced strategies with CapitalFlow placed on dates whose prices equal the previous date's give the same index as without the flows. "
     "non-trivial = at least one non-zero flow after the first date and one date with non-zero return. distinct = distinct spec hashes."
 )
@@ -174,7 +175,7 @@ def flows_case(draw):
                 pr[t][i] = pr[t][i - 1]
     frames = {}
     sw, info = draw(gen.select_weigh(ds, tickers, tickers, frames, allow_short=True, allow_risk=False, scale_free=True, pr=pr))
-    if any(a[0] in ("WeighTarget", "LimitDeltas") for a in sw):  # dated targets / path-dependent limits are not capital-independent
+    if any(a[0] in ("WeighTarget", "LimitDeltas", "SetStat") for a in sw):  # dated targets / path-dependent limits are not capital-independent; a sparse statistic skips rebalances
         sw = [["SelectAll", {}], ["WeighEqually", {}]]
         frames = {}
     amounts = [draw(st.sampled_from([250000.0, -300000.0, 1e6, 12345.67, -50000.0])) for _ in fidx]
@@ -218,12 +219,60 @@ def case_flows(ctx, spec):
     return {"nontrivial": moved, "labels": ["flows=%d" % int((f2[1:] != 0).sum())]}
 
 
-SUBS = {"recurrence": case_recurrence, "history": case_history, "scale": case_scale, "flows": case_flows}
-STRATS = {"recurrence": lambda: st.one_of(gen.backtest_spec(), gen.backtest_spec(allow_flow="force")), "history": machine.history_spec, "scale": scale_case, "flows": flows_case}
+# ---- explicit flow schedules --------------------------------------------------------------------------
+@st.composite
+def schedule_case(draw):
+    """a known schedule of flows (several per date possible; booked by CapitalFlow or by a user algo that adjusts with update=False and
+    relies on the backtest's closing update) on top of any gated trading stack"""
+    spec = draw(gen.backtest_spec(max_dates=12, nested=False, allow_flow=False, allow_risk=False))
+    ds = spec["dates"]
+    n = len(ds)
+    k = draw(st.integers(1, 4))
+    sched = []
+    flow_algos = []
+    for _ in range(k):
+        i = draw(st.integers(0, n - 1))
+        amt = draw(st.sampled_from([7500.0, -5000.0, 123456.78, -20000.0, 0.5]))
+        how = draw(st.sampled_from(["CapitalFlow", "FlowNoUpdate"]))
+        sched.append([i, amt, how])
+        flow_algos.append(["Or", {"algos": [["Stack", {"algos": [["RunOnDate", {"dates": [ds[i]]}], [how, {"amount": amt}]]}], ["Const", {"v": True}]]}])
+    spec["tree"]["algos"] = flow_algos + spec["tree"]["algos"]
+    spec["schedule"] = sched
+    return spec
+
+
+def case_schedule(ctx, spec):
+    bt = ctx.bt
+    base = {k: v for k, v in spec.items() if k != "schedule"}
+    try:
+        b = c10.run_backtest(bt, base)
+    except Exception as e:
+        raise Discard("run raised (C10's business): %s" % type(e).__name__)
+    s = b.strategy
+    if s.bankrupt:
+        raise Discard("bankrupt")
+    f = np.asarray(s.flows, dtype=float)
+    exp = np.zeros(len(f))
+    exp[0] = spec.get("initial_capital", 1e6)
+    for i, amt, how in spec["schedule"]:
+        exp[i + 1] += amt
+    if not np.allclose(f, exp, rtol=1e-12, atol=1e-9):
+        i = int(np.argmax(~np.isclose(f, exp, rtol=1e-12, atol=1e-9)))
+        raise Violation("recorded flows on row %d are %r but the schedule booked %r (schedule %s)" % (i, f[i], exp[i], spec["schedule"]), signature="flows-not-recorded")
+    check_recurrence(bt, s, "schedule")
+    # a flow is capital, not performance: on a date without trading costs and without price moves the index does not move
+    p = np.asarray(s.prices, dtype=float)
+    moved = bool((np.abs(np.diff(p)) > 1e-12).any())
+    return {"nontrivial": moved and any(i > 0 for i, _, _ in spec["schedule"]), "labels": sorted({how for _, _, how in spec["schedule"]})}
+
+
+SUBS = {"schedule": case_schedule, "recurrence": case_recurrence, "history": case_history, "scale": case_scale, "flows": case_flows}
+STRATS = {"schedule": schedule_case, "recurrence": lambda: st.one_of(gen.backtest_spec(), gen.backtest_spec(allow_flow="force")), "history": machine.history_spec, "scale": scale_case, "flows": flows_case}
 
 
 def shard(ctx):
     run_sub(ctx, "recurrence", st.one_of(gen.backtest_spec(), gen.backtest_spec(allow_flow="force")), lambda s: case_recurrence(ctx, s), ctx.n(800, 16000))
+    run_sub(ctx, "schedule", schedule_case(), lambda s: case_schedule(ctx, s), ctx.n(800, 12000))
     run_sub(ctx, "history", machine.history_spec(min_ops=8, max_ops=36), lambda s: case_history(ctx, s), ctx.n(1000, 20000))
     run_sub(ctx, "scale", scale_case(), lambda s: case_scale(ctx, s), ctx.n(320, 6000))
     run_sub(ctx, "flows", flows_case(), lambda s: case_flows(ctx, s), ctx.n(320, 6000))
